@@ -109,10 +109,32 @@ FIRST_WAVE_MISSED.update({
     "C19_i": "no second logger ever asked for the connected logger's id: slot J does (refused), and the logger must keep getting its copies",
     "C19_j": "loggers always connected with CONNECT_V2 + CONNECT: logger K connects with CONNECT alone",
 })
+FIRST_WAVE_MISSED.update({
+    "C01_l": "a fault inside the real Client (the wrong number of bytes is skipped after a size mismatch, so everything published afterwards is lost): invisible to C01's raw clients, caught by C08 from the start (seeded/C01_l/check names C08). While running it a hang appeared: WouldBlock derives from BaseException and killed a pool worker, the pool then waited forever - worker exceptions of any kind are now reported as harness errors",
+    "C02_l": "the client under test was never a logger module: a third configuration connects it with logger_status=True",
+    "C03_k": "no report subscriber died in the middle of a multi-part report: a MESSAGE_TRAFFIC / TIMING subscriber now dies before the k-th send of a report round after 70 distinct types were seen",
+    "C03_l": "no request ever concerned an id that two connections share: a newcomer (exclusive or not) asks for it, and the holders must stay connected, acknowledged and served",
+    "C04_k": "all user message ids were above 100: three user messages with ids the core leaves free below 100",
+    "C05_k": "no receiver ever failed at write time: a receiver now resets right before one of the manager's send calls, also in the round in which only the manager's own reports are written",
+    "C08_l": "discard_messages() was never called: it now runs while the tail of a frame is still arriving, cut at every offset (and a poll no longer waits for data in the model)",
+    "C09_k": "explicit infinities had been classed as unspecified: an accepted value must read back finite, so they are out of the domain wherever they occur",
+    "C09_l": "validation was only probed around explicit disable blocks: it is now probed after library calls that switch it off internally (Client.send_message / send_signal), whatever way they end",
+    "C10_l": "headers always had their counts filled in: a header as it comes out of the constructor (num_data_bytes 0) was added",
+    "C12_k": "no two different files were named by the same relative import string: graph 'samestring'",
+    "C13_k": "the reuse form was only checked against edits of the borrowed struct: name / id edits of the reusing definition (borrowing from a struct or a message) must change its hash, and it never shares the lender's hash",
+    "C13_l": "no field type mentioned a constant: float[NCH] is now in the type alphabet, with the constant next to the message, in an imported file, or with another value",
+    "C14_k": "the logger always used CONNECT_V2: a population whose logger connected with CONNECT alone",
+    "C14_l": "no clock ever moved in C14: the manager's periodic reports and a subscriber that cannot take them (each report is delivered or answered by a notice)",
+    "C16_k": "no field spec was written with blanks inside: a closure with such specs (the combined file must reproduce the hashes)",
+    "C16_l": "every compilation used a fresh Parser: the model of a Parser with failed / successful parses behind it must equal a fresh one's (core import on)",
+    "C18_k": "every sender stayed connected until the report: a module that connects, publishes and leaves within one interval",
+    "C18_l": "process ids never changed: a connected module announces another process id",
+    "C19_k": "every request came after a handshake: requests before the handshake, and the handshake later on the same connection",
+})
 NEUTRALIZED = {"C17_b": "the change re-ordered the two Event operations of the hand-off; the second data-logger repair made the pair atomic under a lock, so the re-ordering no longer breaks the property (the demonstration passes on the repaired tree)"}
 rows = []
 titles = {}
-for d in sorted(glob.glob(os.path.join(HERE, "seeded", "*_[abcdefghij]"))):
+for d in sorted(glob.glob(os.path.join(HERE, "seeded", "*_[abcdefghijkl]"))):
     sid = os.path.basename(d)
     ev = json.load(open(os.path.join(d, "eval.json"))) if os.path.exists(os.path.join(d, "eval.json")) else {}
     notes = open(os.path.join(d, "notes.md")).read() if os.path.exists(os.path.join(d, "notes.md")) else ""
